@@ -144,6 +144,29 @@ def run(ctx):
                   msg=f"real_frame for a frame of {fname} (line 7): (exit, frames added, file, line) = {got}, specified [('return', 1, {fname!r}, 7)]: the traceback ends before the frame "
                   "where the fault happened", key=f"native frame {fname}", node=rf, rel="eval.py")
 
+    ctx.rule("R18.12", "the report of a SyntaxError is built for every value the host gives its position fields: offset / end_offset / lineno are None for some errors "
+             "(source with a NUL byte) - the formatter must not fail on them, or nothing reaches the script's logger (and a Jupyter session is shut down)", floor=1)
+    bs = program.func("eval.py::EvalExceptionFormatter._build_stack")
+    branch = None
+    for n in ast.walk(bs):
+        if isinstance(n, ast.If) and "SyntaxError" in norm(n.test) and any("self.exc.offset" in norm(s) for s in n.body):
+            branch = n
+    if branch is None:
+        raise AnalysisError("R18.12: the SyntaxError branch of _build_stack was not found")
+    from ..flow import FlowInterp
+    from ..absint import Cfg, NONE, Out
+    for label, off, end in (("both positions None", NONE, NONE), ("end_offset None", Const(3), NONE), ("both given", Const(3), Const(5))):
+        polb = FlowPolicy(program, may_raise_all=False, cancel=False, summaries={"self.ast_frame": lambda i, n, a, k, c, o: [(c, NONE)], "frame.f_locals.get": lambda i, n, a, k, c, o: [(c, ObjV("ev", "AstEval"))],
+                                                                                  "ctx.global_ctx.get_file_path": lambda i, n, a, k, c, o: [(c, Const("/config/pyscript/hello.py"))]})
+        interp = FlowInterp(polb, "eval.py")
+        interp.call_stack.append(bs)
+        heapb = {"self.exc": ObjV("exc", "SyntaxError"), "exc.lineno": Const(1), "exc.offset": off, "exc.end_offset": end, "ev.code_list": ListV((), "list"), "ev.filename": Const("f")}
+        ob = interp.exec_block(branch.body, [Cfg(env={"self": ObjV("self", "EvalExceptionFormatter"), "frame": ObjV("frame", "frame")}, heap=heapb)])
+        raised = [getattr(c.env.get("$exc"), "cls", "?") for c in ob.get("raise")]
+        ctx.check(not raised, "R18.12", "eval.py::EvalExceptionFormatter._build_stack", f"SyntaxError with {label}",
+                  msg=f"_build_stack for a SyntaxError with {label}: the formatter itself raises {raised} ('Error while formatting ast exception' is all that is logged, on the integration's logger)",
+                  key=f"syntax error positions {label}", node=branch, rel="eval.py")
+
     ctx.rule("R18.3", "no user-code exception reaches the handler that ends a trigger loop", floor=1)
     uid = "trigger.py::TrigInfo.trigger_watch"
     f = program.func(uid)
